@@ -164,9 +164,34 @@ class VisitChildren:
             imax(tracker.max_depth, r_seq(rest, current_depth, False))
 
 
+@opaque
+def py_raw(func_node: PyNode) -> Int:
+    """The depth PythonNestingAnalyzer.calculate_max_depth returns (opaque for the callers: the reporting loop only needs
+    THAT it is a function of the node; what it is is stated and proved in the `~documented` view below)."""
+    return h_py(func_node, False)
+
+
 @contract(PY + "PythonNestingAnalyzer.calculate_max_depth", props=["C01"],
           types=dict(self=PyAnalyzerT, func_node=PyNode, tracker=TrackerT, stmt=PyNode), returns=TupleOf(Int, Int))
 class PyCalculateMaxDepth:
+    def requires(self, func_node):
+        return func_node is not None
+
+    def reveals(self, func_node):
+        return reveal(py_raw, func_node)
+
+    def ensures_raw(self, func_node, result):
+        return result[0] == py_raw(func_node)
+
+    def inv0(self, func_node, tracker, rest):
+        return tracker.max_depth >= 0 and \
+            imax(0, r_seq(func_node.body, 0, False)) == imax(tracker.max_depth, r_seq(rest, 0, False))
+
+
+@contract(PY + "PythonNestingAnalyzer.calculate_max_depth~documented", props=["C01"],
+          types=dict(self=PyAnalyzerT, func_node=PyNode, tracker=TrackerT, stmt=PyNode), returns=TupleOf(Int, Int))
+class PyCalculateMaxDepthDocumented:
+    """Second view of the same function: the property-level clauses (not part of what callers assume)."""
     def requires(self, func_node):
         return func_node is not None
 
@@ -226,3 +251,890 @@ def py_case_arm_counted(node, d, line):
     tracker = mk(TrackerT, max_depth=d, max_depth_line=line)
     call(PY + "_visit_node", node, d, tracker, line, False)
     return tracker.max_depth == d + 1
+
+
+# ====================================================================================== TypeScript / Rust: specification
+# docs/nesting-linter.md, "Statements That Increase Depth"
+TS_CTL = ("if_statement", "for_statement", "for_in_statement", "while_statement", "do_statement", "try_statement",
+          "switch_statement", "with_statement")
+RS_CTL = ("if_expression", "match_expression", "loop_expression", "while_expression", "for_expression", "closure_expression")
+
+
+def ts_is_ctl(n):
+    """TypeScript: if / for / for...in / for...of / while / do...while / try / switch (and the deprecated with)."""
+    return n.type in TS_CTL
+
+
+def rs_is_ctl(n, doc):
+    """Rust: if / match / loop / while / for expressions and closures -- and, in the documentation only, `async` blocks
+    (known finding C01-rust-async-block-not-counted)."""
+    return n.type in RS_CTL or (doc and n.type == "async_block")
+
+
+# level(x) = 1 (function body) + number of control structures enclosing x; t_*(…, d) = the largest level of a node in
+# the subtree when its root sits at level d (the documented depth D is this maximum over the body)
+def ts_node_depth(n: TSNode, d: Int) -> Int:
+    return imax(d, ts_seq_depth(n.children, d + 1 if ts_is_ctl(n) else d))
+
+
+def ts_seq_depth(s: SeqOf(TSNode), d: Int) -> Int:
+    if len(s) == 0:
+        return 0
+    return imax(ts_node_depth(s[0], d), ts_seq_depth(s[1:], d))
+
+
+def rs_node_depth(n: TSNode, d: Int, doc: Bool) -> Int:
+    return imax(d, rs_seq_depth(n.children, d + 1 if rs_is_ctl(n, doc) else d, doc))
+
+
+def rs_seq_depth(s: SeqOf(TSNode), d: Int, doc: Bool) -> Int:
+    if len(s) == 0:
+        return 0
+    return imax(rs_node_depth(s[0], d, doc), rs_seq_depth(s[1:], d, doc))
+
+
+def first_child(s: SeqOf(TSNode), k: Str) -> TSNode:
+    if len(s) == 0:
+        return None
+    if s[0].type == k:
+        return s[0]
+    return first_child(s[1:], k)
+
+
+def d_ts(func_node):
+    """Documented depth of a TypeScript function: 1 for the body, more if control structures enclose statements."""
+    return 1 if first_child(func_node.children, "statement_block") is None \
+        else imax(1, ts_seq_depth(first_child(func_node.children, "statement_block").children, 1))
+
+
+def d_rs(func_node, doc):
+    """Depth of a Rust function (doc=True: over the documented constructs, doc=False: over NESTING_NODE_TYPES)."""
+    return 1 if first_child(func_node.children, "block") is None \
+        else imax(1, rs_seq_depth(first_child(func_node.children, "block").children, 1, doc))
+
+
+def ts_raw_depth(func_node):
+    """What TypeScriptNestingAnalyzer.calculate_max_depth returns: max(raw, 1) is the documented depth d_ts."""
+    return 0 if first_child(func_node.children, "statement_block") is None \
+        else imax(0, ts_seq_depth(first_child(func_node.children, "statement_block").children, 1))
+
+
+def rs_raw_depth(func_node):
+    return 0 if first_child(func_node.children, "block") is None \
+        else imax(0, rs_seq_depth(first_child(func_node.children, "block").children, 1, False))
+
+
+# ====================================================================================== TypeScript analyzer
+TsFxT = Rec("TypeScriptFunctionExtractor", cls=FX + "TypeScriptFunctionExtractor", tree_sitter_available=Bool)
+TsAnalyzerT = Rec("TypeScriptNestingAnalyzer", cls=TS + "TypeScriptNestingAnalyzer", tree_sitter_available=Bool,
+                  function_extractor=TsFxT)
+RsAnalyzerT = Rec("RustNestingAnalyzer", cls=RS + "RustNestingAnalyzer", tree_sitter_available=Bool)
+
+
+@contract(TS + "TypeScriptNestingAnalyzer._find_function_body", props=["C01"], types=dict(self=TsAnalyzerT, func_node=TSNode, child=TSNode),
+          returns=TSNode)
+class TsFindFunctionBody:
+    def requires(self, func_node):
+        return func_node is not None
+
+    def value(self, func_node):
+        return first_child(func_node.children, "statement_block")
+
+    def inv0(self, func_node, rest):
+        return first_child(func_node.children, "statement_block") == first_child(rest, "statement_block")
+
+
+@contract(TS + "TypeScriptNestingAnalyzer.calculate_max_depth.visit_node", props=["C01"],
+          types=dict(node=TSNode, current_depth=Int, new_depth=Int, child=TSNode, self=TsAnalyzerT, max_depth=Int, max_depth_line=Int),
+          free=["self", "max_depth", "max_depth_line"], modifies=["max_depth", "max_depth_line"])
+class TsVisitNode:
+    def requires(node, current_depth, max_depth):
+        return node is not None and max_depth >= 0 and current_depth >= 0
+
+    def ensures_running_maximum(node, current_depth, max_depth, old):
+        return max_depth == imax(old.max_depth, ts_node_depth(node, current_depth))
+
+    def inv0(node, current_depth, new_depth, max_depth, old, rest):
+        # (new_depth itself is not constrained here: a wrong increment must surface in the post-condition)
+        return max_depth >= 0 and new_depth >= 0 and \
+            imax(imax(old.max_depth, current_depth), ts_seq_depth(node.children, new_depth)) == \
+            imax(max_depth, ts_seq_depth(rest, new_depth))
+
+
+@opaque
+def ts_raw(func_node: TSNode) -> Int:
+    """The depth TypeScriptNestingAnalyzer.calculate_max_depth returns (opaque for callers, see the `~documented` view)."""
+    return ts_raw_depth(func_node)
+
+
+TS_CALC_TYPES = dict(self=TsAnalyzerT, func_node=TSNode, body_node=TSNode, max_depth=Int, max_depth_line=Int, child=TSNode)
+
+
+@contract(TS + "TypeScriptNestingAnalyzer.calculate_max_depth", props=["C01"], types=TS_CALC_TYPES, returns=TupleOf(Int, Int))
+class TsCalculateMaxDepth:
+    def requires(self, func_node):
+        return func_node is not None
+
+    def reveals(self, func_node):
+        return reveal(ts_raw, func_node)
+
+    def ensures_raw(self, func_node, result):
+        return result[0] == ts_raw(func_node)
+
+    def inv1(self, func_node, body_node, max_depth, rest):   # loop #0 of the source text is the one inside visit_node
+        return body_node is not None and body_node == first_child(func_node.children, "statement_block") and max_depth >= 0 and \
+            imax(0, ts_seq_depth(body_node.children, 1)) == imax(max_depth, ts_seq_depth(rest, 1))
+
+
+@contract(TS + "TypeScriptNestingAnalyzer.calculate_max_depth~documented", props=["C01"], types=TS_CALC_TYPES,
+          returns=TupleOf(Int, Int))
+class TsCalculateMaxDepthDocumented:
+    def requires(self, func_node):
+        return func_node is not None
+
+    def ensures_documented_depth(self, func_node, result):
+        # property text: 1 for the function body plus one per enclosing control structure
+        return imax(result[0], 1) == d_ts(func_node)
+
+    def inv1(self, func_node, body_node, max_depth, rest):
+        return body_node is not None and body_node == first_child(func_node.children, "statement_block") and max_depth >= 0 and \
+            imax(0, ts_seq_depth(body_node.children, 1)) == imax(max_depth, ts_seq_depth(rest, 1))
+
+
+@lemma(props=["C01"], types=dict(func_node=TSNode), name="typescript-raw-depth-is-documented-depth")
+def ts_raw_is_documented(func_node):
+    """What the reporting loop compares with the limit is the documented depth (raw 0 = no body/empty body = depth 1)."""
+    if func_node is None:
+        return True
+    reveal(ts_raw, func_node)
+    return imax(ts_raw(func_node), 1) == d_ts(func_node) and ts_raw(func_node) >= 0
+
+
+# ====================================================================================== Rust analyzer
+@contract(RS + "RustNestingAnalyzer._find_function_body", props=["C01"], types=dict(self=RsAnalyzerT, func_node=TSNode, child=TSNode),
+          returns=TSNode)
+class RsFindFunctionBody:
+    def requires(self, func_node):
+        return func_node is not None
+
+    def value(self, func_node):
+        return first_child(func_node.children, "block")
+
+    def inv0(self, func_node, rest):
+        return first_child(func_node.children, "block") == first_child(rest, "block")
+
+
+@contract(RS + "RustNestingAnalyzer.calculate_max_depth.visit_node", props=["C01"],
+          types=dict(node=TSNode, current_depth=Int, new_depth=Int, child=TSNode, self=RsAnalyzerT, max_depth=Int, max_depth_line=Int),
+          free=["self", "max_depth", "max_depth_line"], modifies=["max_depth", "max_depth_line"])
+class RsVisitNode:
+    def requires(node, current_depth, max_depth):
+        return node is not None and max_depth >= 0 and current_depth >= 0
+
+    def ensures_running_maximum(node, current_depth, max_depth, old):
+        return max_depth == imax(old.max_depth, rs_node_depth(node, current_depth, False))
+
+    def inv0(node, current_depth, new_depth, max_depth, old, rest):
+        return max_depth >= 0 and new_depth >= 0 and \
+            imax(imax(old.max_depth, current_depth), rs_seq_depth(node.children, new_depth, False)) == \
+            imax(max_depth, rs_seq_depth(rest, new_depth, False))
+
+
+@opaque
+def rs_raw(func_node: TSNode) -> Int:
+    """The depth RustNestingAnalyzer.calculate_max_depth returns (opaque for callers, see the `~documented` view)."""
+    return rs_raw_depth(func_node)
+
+
+RS_CALC_TYPES = dict(self=RsAnalyzerT, func_node=TSNode, body_node=TSNode, max_depth=Int, max_depth_line=Int, child=TSNode)
+
+
+@contract(RS + "RustNestingAnalyzer.calculate_max_depth", props=["C01"], types=RS_CALC_TYPES, returns=TupleOf(Int, Int))
+class RsCalculateMaxDepth:
+    def requires(self, func_node):
+        return func_node is not None
+
+    def reveals(self, func_node):
+        return reveal(rs_raw, func_node)
+
+    def ensures_raw(self, func_node, result):
+        return result[0] == rs_raw(func_node)
+
+    def inv1(self, func_node, body_node, max_depth, rest):
+        return body_node is not None and body_node == first_child(func_node.children, "block") and max_depth >= 0 and \
+            imax(0, rs_seq_depth(body_node.children, 1, False)) == imax(max_depth, rs_seq_depth(rest, 1, False))
+
+
+@contract(RS + "RustNestingAnalyzer.calculate_max_depth~documented", props=["C01"], types=RS_CALC_TYPES, returns=TupleOf(Int, Int))
+class RsCalculateMaxDepthDocumented:
+    def requires(self, func_node):
+        return func_node is not None
+
+    def ensures_documented_depth(self, func_node, result):
+        # docs list `async` blocks among the Rust nesting constructs (expected to fail: C01-rust-async-block-not-counted)
+        return imax(result[0], 1) == d_rs(func_node, True)
+
+    def ensures_code_depth(self, func_node, result):
+        # finding-adjusted: the documented depth over every listed construct except `async` blocks
+        return imax(result[0], 1) == d_rs(func_node, False)
+
+    def inv1(self, func_node, body_node, max_depth, rest):
+        return body_node is not None and body_node == first_child(func_node.children, "block") and max_depth >= 0 and \
+            imax(0, rs_seq_depth(body_node.children, 1, False)) == imax(max_depth, rs_seq_depth(rest, 1, False))
+
+
+@lemma(props=["C01"], types=dict(func_node=TSNode), name="rust-raw-depth-is-code-depth")
+def rs_raw_is_code_depth(func_node):
+    if func_node is None:
+        return True
+    reveal(rs_raw, func_node)
+    return imax(rs_raw(func_node), 1) == d_rs(func_node, False) and rs_raw(func_node) >= 0
+
+
+# ====================================================================================== function collection
+from contracts import c01_ts_base  # noqa: E402,F401  (TypeScriptBaseAnalyzer contracts)
+from contracts.c01_ts_base import ts_identifier_name, ts_root  # noqa: E402
+from contracts.c17_clone import first_of_type, node_text  # noqa: E402  (spec functions of the RustBaseAnalyzer contracts)
+from contracts.c17_rust_context import rust_root  # noqa: E402
+
+FuncInfoT = TupleOf(TSNode, Str)
+TS_FUNCTION_TYPES = ("function_declaration", "arrow_function", "method_definition", "function")
+
+
+def ts_var_name(node, fallback):
+    """Name of an arrow function / function expression: the variable it initialises, else the fallback label."""
+    return fallback if node.parent is None or node.parent.type != "variable_declarator" \
+        or ts_identifier_name(node.parent) == "anonymous" else ts_identifier_name(node.parent)
+
+
+def ts_function_name(node):
+    return ts_var_name(node, "arrow_function") if node.type == "arrow_function" else (
+        ts_var_name(node, "function_expression") if node.type == "function" else ts_identifier_name(node))
+
+
+def ts_functions(n: TSNode) -> SeqOf(FuncInfoT):
+    """docs: functions, methods, arrow functions (and function expressions), each exactly once, in document order."""
+    return ([(n, ts_function_name(n))] if n.type in TS_FUNCTION_TYPES else []) + ts_functions_seq(n.children)
+
+
+def ts_functions_seq(s: SeqOf(TSNode)) -> SeqOf(FuncInfoT):
+    if len(s) == 0:
+        return []
+    return ts_functions(s[0]) + ts_functions_seq(s[1:])
+
+
+@contract(FX + "TypeScriptFunctionExtractor._extract_function_declaration", props=["C01"], types=dict(node=TSNode), returns=FuncInfoT)
+class TsExtractFunctionDeclaration:
+    def requires(self, node):
+        return node is not None
+
+    def value(self, node):
+        return (node, ts_identifier_name(node))
+
+
+@contract(FX + "TypeScriptFunctionExtractor._extract_method_definition", props=["C01"], types=dict(node=TSNode), returns=FuncInfoT)
+class TsExtractMethodDefinition:
+    def requires(self, node):
+        return node is not None
+
+    def value(self, node):
+        return (node, ts_identifier_name(node))
+
+
+@contract(FX + "TypeScriptFunctionExtractor._extract_arrow_function", props=["C01"], types=dict(node=TSNode, parent=TSNode, name=Str),
+          returns=FuncInfoT)
+class TsExtractArrowFunction:
+    def requires(self, node):
+        return node is not None
+
+    def value(self, node):
+        return (node, ts_var_name(node, "arrow_function"))
+
+
+@contract(FX + "TypeScriptFunctionExtractor._extract_function_expression", props=["C01"],
+          types=dict(node=TSNode, parent=TSNode, name=Str), returns=FuncInfoT)
+class TsExtractFunctionExpression:
+    def requires(self, node):
+        return node is not None
+
+    def value(self, node):
+        return (node, ts_var_name(node, "function_expression"))
+
+
+@contract(FX + "TypeScriptFunctionExtractor.extract_function_info", props=["C01"], types=dict(node=TSNode), returns=Opt(FuncInfoT))
+class TsExtractFunctionInfo:
+    def requires(self, node):
+        return node is not None
+
+    def value(self, node):
+        return (node, ts_function_name(node)) if node.type in TS_FUNCTION_TYPES else None
+
+
+@contract(FX + "TypeScriptFunctionExtractor._collect_functions_recursive", props=["C01"],
+          types=dict(node=TSNode, functions=SeqOf(FuncInfoT), func_info=Opt(FuncInfoT), child=TSNode), modifies=["functions"])
+class TsCollectFunctionsRecursive:
+    def requires(self, node, functions):
+        return node is not None
+
+    def ensures_appends_functions_in_document_order(self, node, functions, old):
+        return functions == old.functions + ts_functions(node)
+
+    def inv0(self, node, functions, old, rest):
+        return old.functions + ts_functions(node) == functions + ts_functions_seq(rest)
+
+
+@contract(FX + "TypeScriptFunctionExtractor.collect_all_functions", props=["C01"], types=dict(self=TsFxT, root_node=TSNode),
+          returns=SeqOf(FuncInfoT))
+class TsCollectAllFunctions:
+    def requires(self, root_node):
+        return root_node is not None
+
+    def value(self, root_node):
+        return ts_functions(root_node)
+
+
+@contract(TS + "TypeScriptNestingAnalyzer.find_all_functions", props=["C01"], types=dict(self=TsAnalyzerT, root_node=TSNode),
+          returns=SeqOf(FuncInfoT))
+class TsFindAllFunctions:
+    """Every function of the file is analysed exactly once."""
+    def requires(self, root_node):
+        return root_node is not None
+
+    def value(self, root_node):
+        return ts_functions(root_node)
+
+
+def rs_ident_name(node):
+    """RustBaseAnalyzer.extract_identifier_name"""
+    return "anonymous" if first_of_type(node.children, "identifier") is None \
+        else node_text(first_of_type(node.children, "identifier"))
+
+
+def rs_functions(n: TSNode) -> SeqOf(FuncInfoT):
+    """Every function_item (free functions, methods in impl blocks, async fns), once, in document order."""
+    return ([(n, rs_ident_name(n))] if n.type == "function_item" else []) + rs_functions_seq(n.children)
+
+
+def rs_functions_seq(s: SeqOf(TSNode)) -> SeqOf(FuncInfoT):
+    if len(s) == 0:
+        return []
+    return rs_functions(s[0]) + rs_functions_seq(s[1:])
+
+
+@contract(RS + "RustNestingAnalyzer._collect_functions_recursive", props=["C01"],
+          types=dict(node=TSNode, functions=SeqOf(FuncInfoT), name=Str, child=TSNode), modifies=["functions"])
+class RsCollectFunctionsRecursive:
+    def requires(self, node, functions):
+        return node is not None
+
+    def ensures_appends_functions_in_document_order(self, node, functions, old):
+        return functions == old.functions + rs_functions(node)
+
+    def inv0(self, node, functions, old, rest):
+        return old.functions + rs_functions(node) == functions + rs_functions_seq(rest)
+
+
+@contract(RS + "RustNestingAnalyzer.find_all_functions", props=["C01"], types=dict(self=RsAnalyzerT, root_node=TSNode),
+          returns=SeqOf(FuncInfoT))
+class RsFindAllFunctions:
+    def ensures_every_function_once(self, root_node, result):
+        return result == ([] if root_node is None else rs_functions(root_node))
+
+
+# ====================================================================================== violation builder
+BuilderT = Rec("NestingViolationBuilder", cls=VB + "NestingViolationBuilder", rule_id=Str)
+OptPathT = Opt(PathT)
+CtxT = Rec("LintContext", file_path=OptPathT, file_content=Opt(Str), language=Str)
+from contracts.c05_config import NestingConfigT  # noqa: E402  (record of NestingConfig; its contracts live in c05_config.py)
+
+RULE_ID = "nesting.excessive-depth"
+
+
+def path_text(context):
+    """str(context.file_path or "")"""
+    return path_str(context.file_path) if context.file_path is not None else ""
+
+
+def depth_message(name, depth):
+    """Property text: the message states the depth."""
+    return f"Function '{name}' has excessive nesting depth ({depth})"
+
+
+def depth_suggestion(depth, limit):
+    return (f"Maximum nesting depth of {depth} exceeds limit of {limit}. "
+            "Consider extracting nested logic to separate functions, using early returns, "
+            "or applying guard clauses to reduce nesting.")
+
+
+def nesting_violation(rule_id, context, line, column, name, depth, limit):
+    """THE violation of a function: at its header line/column, message stating the depth."""
+    return violation_of(rule_id, path_text(context), line, column, depth_message(name, depth), "error",
+                        depth_suggestion(depth, limit))
+
+
+@contract(VB + "NestingViolationBuilder._generate_suggestion", props=["C01"],
+          types=dict(self=BuilderT, actual_depth=Int, max_depth=Int), returns=Str)
+class GenerateSuggestion:
+    def value(self, actual_depth, max_depth):
+        return depth_suggestion(actual_depth, max_depth)
+
+
+@contract(VB + "NestingViolationBuilder.create_nesting_violation", props=["C01", "C12"],
+          types=dict(self=BuilderT, func=PyNode, max_depth=Int, config=NestingConfigT, context=CtxT), returns=ViolationT)
+class CreateNestingViolation:
+    def requires(self, func, max_depth, config, context):
+        return func is not None
+
+    def value(self, func, max_depth, config, context):
+        return nesting_violation(self.rule_id, context, func.lineno, func.col_offset, func.name, max_depth, config.max_nesting_depth)
+
+    def ensures_header_line_and_depth(self, func, max_depth, config, context, result):
+        return result.line == func.lineno and result.column == func.col_offset and result.message == depth_message(func.name, max_depth)
+
+
+@contract(VB + "NestingViolationBuilder.create_typescript_nesting_violation", props=["C01", "C12"],
+          types=dict(self=BuilderT, func_info=FuncInfoT, max_depth=Int, config=NestingConfigT, context=CtxT, func_node=TSNode,
+                     func_name=Str, line=Int, column=Int), returns=ViolationT)
+class CreateTsNestingViolation:
+    def requires(self, func_info, max_depth, config, context):
+        return func_info[0] is not None
+
+    def value(self, func_info, max_depth, config, context):
+        return nesting_violation(self.rule_id, context, func_info[0].start_point[0] + 1, func_info[0].start_point[1],
+                                 func_info[1], max_depth, config.max_nesting_depth)
+
+    def ensures_header_line_and_depth(self, func_info, max_depth, config, context, result):
+        return result.line == func_info[0].start_point[0] + 1 and result.column == func_info[0].start_point[1] \
+            and result.message == depth_message(func_info[1], max_depth)
+
+
+@contract(VB + "NestingViolationBuilder.create_rust_nesting_violation", props=["C01", "C12"],
+          types=dict(self=BuilderT, func_info=FuncInfoT, max_depth=Int, config=NestingConfigT, context=CtxT, func_node=TSNode,
+                     func_name=Str, line=Int, column=Int), returns=ViolationT)
+class CreateRsNestingViolation:
+    def requires(self, func_info, max_depth, config, context):
+        return func_info[0] is not None
+
+    def value(self, func_info, max_depth, config, context):
+        return nesting_violation(self.rule_id, context, func_info[0].start_point[0] + 1, func_info[0].start_point[1],
+                                 func_info[1], max_depth, config.max_nesting_depth)
+
+    def ensures_header_line_and_depth(self, func_info, max_depth, config, context, result):
+        return result.line == func_info[0].start_point[0] + 1 and result.column == func_info[0].start_point[1] \
+            and result.message == depth_message(func_info[1], max_depth)
+
+
+SyntaxErrorT = Rec("SyntaxErrorInfo", lineno=Opt(Int), offset=Opt(Int), msg=Str)
+
+
+@contract(VB + "NestingViolationBuilder.create_syntax_error_violation", props=["C01", "C12"],
+          types=dict(self=BuilderT, error=SyntaxErrorT, context=CtxT), returns=ViolationT)
+class CreateSyntaxErrorViolation:
+    def ensures_points_at_the_error(self, error, context, result):
+        return (result.rule_id == self.rule_id and result.file_path == path_text(context)
+                and result.line == (error.lineno if error.lineno else 0) and result.column == (error.offset if error.offset else 0)
+                and result.message == f"Syntax error: {error.msg}")
+
+
+# ====================================================================================== linter
+IgnoreParserT = Opaque("IgnoreDirectiveParser")
+RuleT = Rec("NestingDepthRule", cls=LI + "NestingDepthRule", _ignore_parser=IgnoreParserT, _violation_builder=BuilderT,
+            _python_analyzer=PyAnalyzerT, _typescript_analyzer=TsAnalyzerT, _rust_analyzer=RsAnalyzerT)
+
+# inline suppression directives are property C04's subject: for C01 an uninterpreted predicate of the violation's
+# (rule id, line) and the file content
+nesting_inline_ignored = uf("nesting_inline_ignored", [Str, Int, Str], Bool)
+
+
+def content_of(context):
+    return context.file_content if context.file_content else ""
+
+
+def suppressed(rule_id, line, context):
+    return nesting_inline_ignored(rule_id, line, content_of(context))
+
+
+@contract(LI + "NestingDepthRule.rule_id", props=["C01"], types=dict(self=RuleT), returns=Str)
+class NestingRuleId:
+    def value(self):
+        return RULE_ID
+
+
+@contract(LI + "NestingDepthRule._should_ignore", props=["C01"], types=dict(self=RuleT, violation=ViolationT, context=CtxT),
+          returns=Bool,
+          assumed="inline suppression directives (ignore parser): subject of property C04; for C01 an uninterpreted "
+                  "predicate of (rule id, line, file content)")
+class NestingShouldIgnore:
+    def value(self, violation, context):
+        return nesting_inline_ignored(violation.rule_id, violation.line, content_of(context))
+
+
+def flagged(depth, limit):
+    """Property text: reported iff the nesting depth EXCEEDS max_nesting_depth."""
+    return depth > limit
+
+
+def py_verdict(func, depth, limit, rule_id, context):
+    """The decision for ONE function of the given depth: a single violation (header line, depth in the message) iff the
+    depth exceeds the limit and no inline directive suppresses it."""
+    return [nesting_violation(rule_id, context, func.lineno, func.col_offset, func.name, depth, limit)] \
+        if flagged(depth, limit) and not suppressed(rule_id, func.lineno, context) else []
+
+
+def py_verdicts_doc(funcs: SeqOf(PyNode), limit: Int, rule_id: Str, context: CtxT) -> SeqOf(ViolationT):
+    """Property text: the verdicts of all functions, in order, on the DOCUMENTED depth."""
+    if len(funcs) == 0:
+        return []
+    return py_verdict(funcs[0], d_py_documented(funcs[0]), limit, rule_id, context) + py_verdicts_doc(funcs[1:], limit, rule_id, context)
+
+
+def py_verdicts(funcs: SeqOf(PyNode), limit: Int, rule_id: Str, context: CtxT) -> SeqOf(ViolationT):
+    """The same decision procedure on the depth the Python analyzer computes (py_raw = documented depth - 1, match_case
+    arms aside: known findings on calculate_max_depth~documented)."""
+    if len(funcs) == 0:
+        return []
+    return py_verdict(funcs[0], py_raw(funcs[0]), limit, rule_id, context) + py_verdicts(funcs[1:], limit, rule_id, context)
+
+
+@contract(LI + "NestingDepthRule._process_python_functions", props=["C01"],
+          types=dict(self=RuleT, functions=SeqOf(PyNode), analyzer=PyAnalyzerT, config=NestingConfigT, context=CtxT,
+                     violations=SeqOf(ViolationT), func=PyNode, max_depth=Int, _line=Int, violation=ViolationT),
+          returns=SeqOf(ViolationT))
+class ProcessPythonFunctions:
+    def requires(self, functions, analyzer, config, context):
+        return config.max_nesting_depth >= 1 and self._violation_builder.rule_id == RULE_ID
+
+    def ensures_documented_verdicts(self, functions, analyzer, config, context, result):
+        # property text (expected to fail with the analyzer: known finding C01-python-depth-offset-verdict)
+        return result == py_verdicts_doc(functions, config.max_nesting_depth, RULE_ID, context)
+
+    def ensures_code_verdicts(self, functions, analyzer, config, context, result):
+        # finding-adjusted: the same decision procedure (strict >, one violation per function, header line, depth in the
+        # message) on the depth the Python analyzer computes
+        return result == py_verdicts(functions, config.max_nesting_depth, RULE_ID, context)
+
+    def inv0(self, functions, config, context, violations, old, rest):
+        return self == old.self and config == old.config and context == old.context and \
+            py_verdicts(functions, config.max_nesting_depth, RULE_ID, context) == \
+            violations + py_verdicts(rest, config.max_nesting_depth, RULE_ID, context)
+
+
+def ts_depth(func_node):
+    """The documented depth of a TypeScript function (= d_ts(func_node), lemma typescript-raw-depth-is-documented-depth)."""
+    return imax(ts_raw(func_node), 1)
+
+
+def ts_verdict(fn, limit, rule_id, context):
+    return [nesting_violation(rule_id, context, fn[0].start_point[0] + 1, fn[0].start_point[1], fn[1], ts_depth(fn[0]), limit)] \
+        if flagged(ts_depth(fn[0]), limit) and not suppressed(rule_id, fn[0].start_point[0] + 1, context) else []
+
+
+def ts_verdicts(funcs: SeqOf(FuncInfoT), limit: Int, rule_id: Str, context: CtxT) -> SeqOf(ViolationT):
+    """One violation (header line, depth in the message) for every function whose documented depth exceeds the limit."""
+    if len(funcs) == 0:
+        return []
+    return ts_verdict(funcs[0], limit, rule_id, context) + ts_verdicts(funcs[1:], limit, rule_id, context)
+
+
+def fn_nodes_ok(funcs: SeqOf(FuncInfoT)) -> Bool:
+    """Every collected function is an actual node (true of everything the collectors return)."""
+    return len(funcs) == 0 or (funcs[0][0] is not None and fn_nodes_ok(funcs[1:]))
+
+
+@contract(LI + "NestingDepthRule._process_typescript_functions", props=["C01"],
+          types=dict(self=RuleT, functions=SeqOf(FuncInfoT), analyzer=TsAnalyzerT, config=NestingConfigT, context=CtxT,
+                     violations=SeqOf(ViolationT), func_node=TSNode, func_name=Str, max_depth=Int, _line=Int, violation=ViolationT),
+          returns=SeqOf(ViolationT))
+class ProcessTypescriptFunctions:
+    def requires(self, functions, analyzer, config, context):
+        return config.max_nesting_depth >= 1 and self._violation_builder.rule_id == RULE_ID and fn_nodes_ok(functions)
+
+    def ensures_documented_verdicts(self, functions, analyzer, config, context, result):
+        # property text: reported iff the documented depth exceeds max_nesting_depth; one violation per function; the
+        # message states the depth; line = header line
+        return result == ts_verdicts(functions, config.max_nesting_depth, RULE_ID, context)
+
+    def inv0(self, functions, config, context, violations, old, rest):
+        return self == old.self and config == old.config and context == old.context and fn_nodes_ok(rest) and \
+            ts_verdicts(functions, config.max_nesting_depth, RULE_ID, context) == \
+            violations + ts_verdicts(rest, config.max_nesting_depth, RULE_ID, context)
+
+
+def rs_depth(func_node):
+    """Depth of a Rust function over the constructs the analyzer counts (= d_rs(func_node, False), lemma
+    rust-raw-depth-is-code-depth; `async` blocks: C01-rust-async-block-not-counted)."""
+    return imax(rs_raw(func_node), 1)
+
+
+def rs_verdict(fn, limit, rule_id, context):
+    return [nesting_violation(rule_id, context, fn[0].start_point[0] + 1, fn[0].start_point[1], fn[1], rs_depth(fn[0]), limit)] \
+        if flagged(rs_depth(fn[0]), limit) and not suppressed(rule_id, fn[0].start_point[0] + 1, context) else []
+
+
+def rs_verdicts(funcs: SeqOf(FuncInfoT), limit: Int, rule_id: Str, context: CtxT) -> SeqOf(ViolationT):
+    if len(funcs) == 0:
+        return []
+    return rs_verdict(funcs[0], limit, rule_id, context) + rs_verdicts(funcs[1:], limit, rule_id, context)
+
+
+@contract(LI + "NestingDepthRule._process_rust_functions", props=["C01"],
+          types=dict(self=RuleT, functions=SeqOf(FuncInfoT), config=NestingConfigT, context=CtxT,
+                     violations=SeqOf(ViolationT), func_node=TSNode, func_name=Str, max_depth=Int, _line=Int, violation=ViolationT),
+          returns=SeqOf(ViolationT))
+class ProcessRustFunctions:
+    def requires(self, functions, config, context):
+        return config.max_nesting_depth >= 1 and self._violation_builder.rule_id == RULE_ID and fn_nodes_ok(functions)
+
+    def ensures_code_verdicts(self, functions, config, context, result):
+        # the documented decision procedure over the constructs the analyzer counts (async blocks: see
+        # C01-rust-async-block-not-counted on calculate_max_depth)
+        return result == rs_verdicts(functions, config.max_nesting_depth, RULE_ID, context)
+
+    def inv0(self, functions, config, context, violations, old, rest):
+        return self == old.self and config == old.config and context == old.context and fn_nodes_ok(rest) and \
+            rs_verdicts(functions, config.max_nesting_depth, RULE_ID, context) == \
+            violations + rs_verdicts(rest, config.max_nesting_depth, RULE_ID, context)
+
+
+def _native_py_parse(text):
+    return ast.parse(text)
+
+
+py_root = uf("py_root_c01", [Str], PyNode, concrete=_native_py_parse)   # Module node of a source text (CPython parser trusted)
+
+
+def py_functions(tree):
+    return [node for node in py_walk(tree) if isinstance(node, (ast.FunctionDef, ast.AsyncFunctionDef))]
+
+
+@contract(LI + "NestingDepthRule._analyze_python_tree", props=["C01"],
+          types=dict(self=RuleT, tree=PyNode, config=NestingConfigT, context=CtxT), returns=SeqOf(ViolationT))
+class AnalyzePythonTree:
+    """Every function definition of the tree is analysed exactly once (ast.walk order)."""
+    def requires(self, tree, config, context):
+        return tree is not None and config.max_nesting_depth >= 1 and self._violation_builder.rule_id == RULE_ID
+
+    def ensures_code_verdicts(self, tree, config, context, result):
+        return result == py_verdicts(py_functions(tree), config.max_nesting_depth, RULE_ID, context)
+
+
+@contract(LI + "NestingDepthRule._check_python", props=["C01"], types=dict(self=RuleT, context=CtxT, config=NestingConfigT),
+          returns=SeqOf(ViolationT),
+          assumed="with_parsed_python (higher-order helper around the CPython parser): parses the file content and applies "
+                  "_analyze_python_tree to the Module node; the SyntaxError branch is outside the model (C01 quantifies "
+                  "over parseable programs)")
+class CheckPython:
+    def ensures_code_verdicts(self, context, config, result):
+        return result == py_verdicts(py_functions(py_root(content_of(context))), config.max_nesting_depth, RULE_ID, context)
+
+
+
+
+@contract(LI + "NestingDepthRule._check_typescript", props=["C01"],
+          types=dict(self=RuleT, context=CtxT, config=NestingConfigT, root_node=Opt(TSNode), functions=SeqOf(FuncInfoT)),
+          returns=SeqOf(ViolationT))
+class CheckTypescript:
+    def requires(self, context, config):
+        return config.max_nesting_depth >= 1 and self._violation_builder.rule_id == RULE_ID and \
+            implies(ts_root(content_of(context)) is not None, fn_nodes_ok(ts_functions(ts_root(content_of(context)))))
+
+    def ensures_documented_verdicts(self, context, config, result):
+        return result == ([] if ts_root(content_of(context)) is None else
+                          ts_verdicts(ts_functions(ts_root(content_of(context))), config.max_nesting_depth, RULE_ID, context))
+
+
+@contract(LI + "NestingDepthRule._check_rust", props=["C01"],
+          types=dict(self=RuleT, context=CtxT, config=NestingConfigT, root_node=Opt(TSNode), functions=SeqOf(FuncInfoT)),
+          returns=SeqOf(ViolationT))
+class CheckRust:
+    def requires(self, context, config):
+        return config.max_nesting_depth >= 1 and self._violation_builder.rule_id == RULE_ID and \
+            implies(rust_root(content_of(context)) is not None, fn_nodes_ok(rs_functions(rust_root(content_of(context)))))
+
+    def ensures_code_verdicts(self, context, config, result):
+        return result == ([] if rust_root(content_of(context)) is None else
+                          rs_verdicts(rs_functions(rust_root(content_of(context))), config.max_nesting_depth, RULE_ID, context))
+
+
+nesting_config_of = uf("nesting_config_of", [CtxT], NestingConfigT)
+
+
+@contract(LI + "NestingDepthRule._load_config", props=["C01"], types=dict(self=RuleT, context=CtxT), returns=NestingConfigT,
+          assumed="generic loader load_linter_config(context, 'nesting', NestingConfig) (contracted under C05 with a "
+                  "generic config record): the NestingConfig that NestingConfig.from_dict builds from the `nesting` section "
+                  "and the file's language (max_nesting_depth >= 1 by __post_init__); an uninterpreted function of the context")
+class NestingLoadConfig:
+    def value(self, context):
+        return nesting_config_of(context)
+
+    def ensures_validated(self, context, result):
+        return result.max_nesting_depth >= 1
+
+
+# ====================================================================================== property-level lemmas
+P_TS = LI + "NestingDepthRule._process_typescript_functions"
+P_PY = LI + "NestingDepthRule._process_python_functions"
+P_RS = LI + "NestingDepthRule._process_rust_functions"
+
+
+@lemma(props=["C01"], types=dict(depth=Int, k=Int), name="flip-exactly-one-limit-value-spec")
+def flip_spec(depth, k):
+    """The verdict, as a function of the limit, changes between k and k+1 for exactly one k (k = depth - 1): reported for
+    every smaller limit, not reported for every larger one."""
+    return ((flagged(depth, k) != flagged(depth, k + 1)) == (k + 1 == depth)
+            and implies(flagged(depth, k + 1), flagged(depth, k))
+            and flagged(depth, depth - 1) and not flagged(depth, depth))
+
+
+@lemma(props=["C01"], types=dict(rule=RuleT, fn=FuncInfoT, analyzer=TsAnalyzerT, k=Int, context=CtxT), name="flip-typescript")
+def flip_ts(rule, fn, analyzer, k, context):
+    """TypeScript: one function, limits k and k+1: at most one violation each, and the verdict flips iff depth == k+1."""
+    if fn[0] is None or k < 1 or rule._violation_builder.rule_id != RULE_ID or suppressed(RULE_ID, fn[0].start_point[0] + 1, context):
+        return True
+    a = call(P_TS, rule, [fn], analyzer, mk(NestingConfigT, max_nesting_depth=k, enabled=True), context)
+    b = call(P_TS, rule, [fn], analyzer, mk(NestingConfigT, max_nesting_depth=k + 1, enabled=True), context)
+    use(ts_raw_is_documented, fn[0])
+    return (len(a) <= 1 and len(b) <= 1 and (len(a) == 1) == (d_ts(fn[0]) > k) and (len(b) == 1) == (d_ts(fn[0]) > k + 1)
+            and (len(a) != len(b)) == (d_ts(fn[0]) == k + 1)
+            and implies(len(a) == 1, a[0].line == fn[0].start_point[0] + 1 and a[0].message == depth_message(fn[1], d_ts(fn[0]))))
+
+
+@lemma(props=["C01"], types=dict(rule=RuleT, fn=FuncInfoT, k=Int, context=CtxT), name="flip-rust")
+def flip_rs(rule, fn, k, context):
+    if fn[0] is None or k < 1 or rule._violation_builder.rule_id != RULE_ID or suppressed(RULE_ID, fn[0].start_point[0] + 1, context):
+        return True
+    a = call(P_RS, rule, [fn], mk(NestingConfigT, max_nesting_depth=k, enabled=True), context)
+    b = call(P_RS, rule, [fn], mk(NestingConfigT, max_nesting_depth=k + 1, enabled=True), context)
+    use(rs_raw_is_code_depth, fn[0])
+    return (len(a) <= 1 and len(b) <= 1 and (len(a) != len(b)) == (d_rs(fn[0], False) == k + 1)
+            and implies(len(a) == 1, a[0].line == fn[0].start_point[0] + 1
+                        and a[0].message == depth_message(fn[1], d_rs(fn[0], False))))
+
+
+@lemma(props=["C01"], types=dict(rule=RuleT, fn=PyNode, analyzer=PyAnalyzerT, k=Int, context=CtxT), name="flip-python")
+def flip_py(rule, fn, analyzer, k, context):
+    """Python (on the analyzer's depth, see C01-python-depth-offset): the verdict flips at exactly one limit value."""
+    if fn is None or k < 1 or rule._violation_builder.rule_id != RULE_ID or suppressed(RULE_ID, fn.lineno, context):
+        return True
+    a = call(P_PY, rule, [fn], analyzer, mk(NestingConfigT, max_nesting_depth=k, enabled=True), context)
+    b = call(P_PY, rule, [fn], analyzer, mk(NestingConfigT, max_nesting_depth=k + 1, enabled=True), context)
+    reveal(py_raw, fn)
+    return (len(a) <= 1 and len(b) <= 1 and (len(a) != len(b)) == (h_py(fn, False) == k + 1)
+            and implies(len(a) == 1, a[0].line == fn.lineno and a[0].message == depth_message(fn.name, h_py(fn, False))))
+
+
+# ---- wrap lemmas (spec level): a statement at level d that gets wrapped in ONE more control structure sits at d + 1 ----
+@lemma(props=["C01"], types=dict(w=TSNode, x=TSNode, d=Int), name="wrap-typescript")
+def wrap_ts(w, x, d):
+    """TypeScript: x a statement without nested structure at level d (deepest level below it: d); wrapped as the only
+    child of a control node w at the same place, the deepest level becomes exactly d + 1."""
+    if w is None or x is None or d < 1 or not ts_is_ctl(w) or x.children != [] or w.children != [x]:
+        return True
+    return ts_node_depth(x, d) == d and ts_node_depth(w, d) == d + 1
+
+
+@lemma(props=["C01"], types=dict(w=TSNode, x=TSNode, d=Int), name="wrap-rust")
+def wrap_rs(w, x, d):
+    if w is None or x is None or d < 1 or not rs_is_ctl(w, True) or x.children != [] or w.children != [x]:
+        return True
+    return rs_node_depth(x, d, True) == d and rs_node_depth(w, d, True) == d + 1
+
+
+@lemma(props=["C01"], types=dict(w=PyNode, x=PyNode, d=Int), name="wrap-python")
+def wrap_py(w, x, d):
+    """Python (documented constructs): a simple statement x under d control structures; wrapped in a loop / with / try /
+    match w (its only child), or in an `if` (its whole body, no else), it is under exactly d + 1."""
+    if w is None or x is None or d < 0 or isinstance(x, ast.If) or py_ctl_doc(x) or len(py_children(x)) != 0:
+        return True
+    if isinstance(w, ast.If):
+        if len(w.body) != 1 or w.body[0] != x or len(w.orelse) != 0:
+            return True
+        return r_node(x, d, False, True) == 0 and r_node(w, d, False, True) == d + 1
+    if not py_ctl_doc(w) or len(py_children(w)) != 1 or py_children(w)[0] != x:
+        return True
+    return r_node(x, d, False, True) == 0 and r_node(w, d, False, True) == d + 1
+
+
+@lemma(props=["C01"], types=dict(a=PyNode, b=PyNode, x=PyNode, y=PyNode, d=Int), name="python-elif-chain-counts-once")
+def elif_once(a, b, x, y, d):
+    """if c1: x  elif c2: y   -- both branches of the chain sit at level d + 1 (the elif opens no further level)."""
+    if a is None or b is None or x is None or y is None or d < 0:
+        return True
+    if not (isinstance(a, ast.If) and isinstance(b, ast.If) and len(a.body) == 1 and a.body[0] == x and len(a.orelse) == 1
+            and a.orelse[0] == b and len(b.body) == 1 and b.body[0] == y and len(b.orelse) == 0):
+        return True
+    if isinstance(x, ast.If) or py_ctl_code(x) or len(py_children(x)) != 0 or isinstance(y, ast.If) or py_ctl_code(y) \
+            or len(py_children(y)) != 0:
+        return True
+    return r_node(a, d, False, True) == d + 1 and r_node(a, d, False, False) == d + 1
+
+
+# ---- cross-language agreement (spec level): base and step of the induction over a skeleton of nested constructs --------
+def lvl_py(x, d):
+    """Deepest level below Python node x sitting under d control structures, in the TypeScript/Rust convention
+    (function body = level 1)."""
+    return 1 + imax(d, r_node(x, d, False, True))
+
+
+@lemma(props=["C01"], types=dict(xp=PyNode, xt=TSNode, xr=TSNode, d=Int), name="cross-language-base")
+def cross_base(xp, xt, xr, d):
+    """A simple statement under d control structures is at level d + 1 in all three languages."""
+    if xp is None or xt is None or xr is None or d < 0:
+        return True
+    if isinstance(xp, ast.If) or py_ctl_doc(xp) or len(py_children(xp)) != 0 or len(xt.children) != 0 or len(xr.children) != 0:
+        return True
+    return lvl_py(xp, d) == d + 1 and ts_node_depth(xt, d + 1) == d + 1 and rs_node_depth(xr, d + 1, True) == d + 1
+
+
+@lemma(props=["C01"], types=dict(wp=PyNode, xp=PyNode, wt=TSNode, xt=TSNode, wr=TSNode, xr=TSNode, d=Int),
+       name="cross-language-step")
+def cross_step(wp, xp, wt, xt, wr, xr, d):
+    """If three renderings xp/xt/xr of a sub-skeleton agree on their deepest level one level further in, then wrapping each
+    in a (documented, non-if) control structure of its language yields renderings that agree, too. With the base lemma:
+    the same skeleton of nested control structures gets the same documented depth in Python, TypeScript and Rust."""
+    if wp is None or xp is None or wt is None or xt is None or wr is None or xr is None or d < 0:
+        return True
+    if not (py_ctl_doc(wp) and not isinstance(wp, ast.If) and len(py_children(wp)) == 1 and py_children(wp)[0] == xp
+            and ts_is_ctl(wt) and len(wt.children) == 1 and wt.children[0] == xt
+            and rs_is_ctl(wr, True) and len(wr.children) == 1 and wr.children[0] == xr):
+        return True
+    if not (lvl_py(xp, d + 1) == ts_node_depth(xt, d + 2) and ts_node_depth(xt, d + 2) == rs_node_depth(xr, d + 2, True)):
+        return True
+    return lvl_py(wp, d) == ts_node_depth(wt, d + 1) and ts_node_depth(wt, d + 1) == rs_node_depth(wr, d + 1, True)
+
+
+# ---- configuration (contracts on NestingConfig live in c05_config.py, props C05 + C01) --------------------------------
+from pyvc.api import dict_put  # noqa: E402
+
+NEST_FROM_DICT = "src/linters/nesting/config.py::NestingConfig.from_dict"
+
+
+def nest_pick(config, language):
+    """Documented precedence: <language>.max_nesting_depth over max_nesting_depth over the default 4."""
+    return (config[language]["max_nesting_depth"]
+            if language is not None and language != "" and language in config and "max_nesting_depth" in config[language]
+            else (config["max_nesting_depth"] if "max_nesting_depth" in config else 4))
+
+
+def nest_cfg_ok(config, language):
+    return (implies(language is not None and language != "" and language in config, isinstance(config[language], dict))
+            and implies("max_nesting_depth" in config, isinstance(config["max_nesting_depth"], int))
+            and implies(language is not None and language != "" and language in config,
+                        implies("max_nesting_depth" in config[language], isinstance(config[language]["max_nesting_depth"], int))))
+
+
+@lemma(props=["C01"], types=dict(config=Dict, language=Str, other=Str, section=Any), name="nesting-limit-per-language")
+def nesting_limit_per_language(config, language, other, section):
+    """The limit used for a file is its language's override, else the top-level value, else 4; it is always >= 1 (invalid
+    values are rejected); changing ANOTHER language's section never changes it."""
+    if language == other or language == "" or other == "max_nesting_depth":
+        return True
+    config2 = dict_put(config, other, section)
+    if not (nest_cfg_ok(config, language) and nest_cfg_ok(config2, language)):
+        return True
+    if not (nest_pick(config, language) > 0 and nest_pick(config2, language) > 0):
+        return True  # rejected with ValueError by NestingConfig.__post_init__
+    a = call(NEST_FROM_DICT, config, language)
+    b = call(NEST_FROM_DICT, config2, language)
+    return a.max_nesting_depth == nest_pick(config, language) and a.max_nesting_depth >= 1 \
+        and b.max_nesting_depth == a.max_nesting_depth
